@@ -466,7 +466,7 @@ func (f *ScriptFS) Wstat(r *go9p.SrvReq)  { f.dispatch("wstat", r) }
 func (f *ScriptFS) ConnOpened(c *go9p.Conn) {
 	// the simulated transport names the server end "srv<N>"
 	idx := -1
-	fmt.Sscanf(c.Id, "srv%d-peer", &idx)
+	fmt.Sscanf(c.LocalAddr().String(), "srv%d", &idx) // (not c.Id: the remote address need not tell connections apart)
 	f.conns = append(f.conns, connIdx{c, idx})
 	f.Log = append(f.Log, &Inv{Seq: len(f.Log), Step: rt.Step(), Op: "connopened", Conn: idx})
 	f.NConn++
@@ -733,6 +733,7 @@ func NewSrvSys(x *Ctx, ops interface{}, fs *ScriptFS, msize uint32, dotu bool, m
 func (s *SrvSys) AddConn(capacity int, seg int) *SConn {
 	cs, cc := rt.NewPipePair(0, fmt.Sprintf("srv%d", len(s.Conns)), fmt.Sprintf("clnt%d", len(s.Conns)))
 	cs.Out.Cap = capacity // server -> client back-pressure
+	cs.SameRemote = s.x.C.cfg("sameaddr") != 0
 	cs.In.Seg = seg
 	cc.In.Seg = seg
 	sc := &SConn{Idx: len(s.Conns), Srv: cs, Clnt: cc, Peer: NewClntPeer(s.x, cc)}
